@@ -38,11 +38,20 @@ type world struct {
 	commits []commitRec
 	nextTag int32
 	depth2  bool
+	big     bool
 }
+
+var bigStr = func() string {
+	b := make([]byte, 1500)
+	for i := range b {
+		b[i] = 'z'
+	}
+	return string(b)
+}()
 
 func open(frames int) *world {
 	r := sysx.OpenReal(dbName, frames*4)
-	r.CreateTable("t1", []sysx.ColDef{{"tag", types.Integer, index_constants.IndexKindInvalid}, {"v", types.Integer, index_constants.IndexKindInvalid}})
+	r.CreateTable("t1", []sysx.ColDef{{"tag", types.Integer, index_constants.IndexKindInvalid}, {"v", types.Integer, index_constants.IndexKindInvalid}, {"s", types.Varchar, index_constants.IndexKindInvalid}})
 	w := &world{r: r, cur: state{}, nextTag: 1}
 	w.commits = append(w.commits, commitRec{0, vf.FsTraceLen(), state{}})
 	return w
@@ -69,7 +78,11 @@ func (w *world) txn(allowInFlight bool) bool {
 		v := vf.I32()
 		tag := w.nextTag
 		w.nextTag++
-		w.r.Exec(sysx.Insert("t1", []string{"tag", "v"}, []types.Value{types.NewInteger(tag), types.NewInteger(v)}), t)
+		str := "s"
+		if w.big {
+			str = bigStr // three of these fill a page: the heap grows a second page
+		}
+		w.r.Exec(sysx.Insert("t1", []string{"tag", "v", "s"}, []types.Value{types.NewInteger(tag), types.NewInteger(v), types.NewVarchar(str)}), t)
 		work[tag] = v
 	case 1:
 		tag := tags[vf.Choose(len(tags))]
@@ -188,7 +201,7 @@ func (w *world) crashAndCheckT(onlyAfterLastCommit bool, torn bool) {
 	vf.Assert(ok, "table after restart equals a committed state allowed at the crash point")
 	vf.Cover("c01.checked")
 	// the restarted database accepts new work
-	_, _, ab2 := r2.Auto(sysx.Insert("t1", []string{"tag", "v"}, []types.Value{types.NewInteger(99), types.NewInteger(7)}))
+	_, _, ab2 := r2.Auto(sysx.Insert("t1", []string{"tag", "v", "s"}, []types.Value{types.NewInteger(99), types.NewInteger(7), types.NewVarchar("after")}))
 	vf.Assert(!ab2, "restarted database accepts a new statement")
 	rows2, _, _ := r2.SelectAll("t1")
 	vf.Assert(len(rows2) == len(got)+1, "new row is visible next to the recovered ones")
@@ -226,3 +239,27 @@ func VF_C02_T3() { history(3, false) }
 func VF_C20_T1() { historyD(1, false, false, true) }
 func VF_C20_T2() { historyD(2, false, false, true) }
 func VF_C20_T3() { historyD(3, false, false, true) }
+
+// a table that grows a second page: three committed 1.5 KB rows, then one more transaction, then the crash
+func grow(onlyAfterLastCommit bool) {
+	w := open(50)
+	w.big = true
+	tm := w.r.Shi.GetTransactionManager()
+	for i := 0; i < 2; i++ {
+		t := tm.Begin(nil)
+		v := vf.I32()
+		w.r.Exec(sysx.Insert("t1", []string{"tag", "v", "s"}, []types.Value{types.NewInteger(w.nextTag), types.NewInteger(v), types.NewVarchar(bigStr)}), t)
+		start := vf.FsTraceLen()
+		tm.Commit(w.r.Cat, t)
+		w.cur = w.cur.clone()
+		w.cur[w.nextTag] = v
+		w.nextTag++
+		w.commits = append(w.commits, commitRec{start, vf.FsTraceLen(), w.cur})
+	}
+	w.txn(true) // third big insert goes to a new page (or an update / delete of a big row)
+	vf.Cover("c01.grow")
+	w.crashAndCheck(onlyAfterLastCommit)
+}
+
+func VF_C01_Grow() { grow(true) }
+func VF_C02_Grow() { grow(false) }
